@@ -240,6 +240,22 @@ def run_cross_record(rep, facts):
     rep.floor("R1.7", "record-end rules", n, 2)
 
 
+def run_finished_stays_finished(rep, facts):
+    """R1.9: the decoded request survives whatever is fed after the preamble: a call on a parser that is already done leaves the Done state
+    alone -- in particular the buffer-full test (StuckOnInput) is taken only for a parser that is not done (instances of R6.2, re-evaluated)."""
+    from . import c06
+    rep.rule("R1.9", "once the preamble is decoded, later parse() calls (look-ahead filling the buffer) do not replace the finished request: a final state is reported as "
+                     "done without touching the state, StuckOnInput is stored only for an unfinished parser (R6.2)")
+    sr = check.Report("tmp", "quick")
+    c06.run(sr, facts)
+    n = 0
+    for i in sr.instances:
+        if i["rule"] == "R6.2" and i["instance"].startswith("parse/"):
+            n += 1
+            (rep.ok if i["status"] == "ok" else rep.violation)("R1.9", i["instance"], i["detail"], i["loc"])
+    rep.floor("R1.9", "stuck-verdict instances", n, 1)
+
+
 def run_next_preamble(rep, facts):
     """R1.8: on a kept connection the next preamble is decoded by a request parser built from the stream parser's buffer: it must start at
     exactly the unread input (rules of C05, re-evaluated)."""
@@ -263,6 +279,7 @@ def main(rep, tier):
     check.guard(rep, "R1.6", run_buffer_premise, f)
     check.guard(rep, "R1.7", run_cross_record, f)
     check.guard(rep, "R1.8", run_next_preamble, f)
+    check.guard(rep, "R1.9", run_finished_stays_finished, f)
     rep.floor("R1", "rule instances", len([i for i in rep.instances if i["status"] == "ok"]), 10)
     import check as _c
     _c.witnesses(rep, "C01", f)
